@@ -2,3 +2,357 @@
   Spil.Lemmas.Sid — helper lemmas for the Sid typing theorems (C01–C03).
 -/
 import Spil.Spec.Sid
+import Spil.Lemmas.StrSplit
+import Spil.Lemmas.ReRun
+import Spil.Lemmas.Template
+
+namespace SidL
+
+open Spec
+
+/-! ### one well-formed template -/
+
+/-- what `sidTplOk` gives, in the vocabulary of `Spil.Lemmas.Template` -/
+theorem tplOk_unpack (e : Env) (t : Template) (h : sidTplOk e t = true) :
+    SidShape t (phs t) ∧ ((phs t).map (·.1)).Nodup ∧ phs t ≠ [] ∧
+    (∀ p ∈ phs t, p.2.slashFree e = true ∧ p.2.noGrp = true) ∧
+    (lastSat isFree (phs t) = true ∨ lastSat (Re.nlFree e) (phs t) = true) := by
+  simp only [sidTplOk, Bool.and_eq_true, List.all_eq_true, Bool.or_eq_true] at h
+  obtain ⟨⟨ha, hd⟩, hall⟩ := h
+  have hs := sidShape_of_alternates t ha
+  refine ⟨hs, (distinct_iff_nodup _).mp hd, hs.ne_nil, fun p hp => ⟨(hall p hp).1.1, (hall p hp).1.2⟩, ?_⟩
+  exact lastSat_of_all _ _ _ hs.ne_nil (fun p hp => (hall p hp).2)
+
+/-- `resolve_*` never raises without the duplicate-placeholder check -/
+theorem resolveTpl_total (e : Env) (t : Template) (s : Str) :
+    ∃ od, Resolver.resolveTpl e false t s = .ok od := by
+  unfold Resolver.resolveTpl
+  cases (t.compile).search e s with
+  | none => exact ⟨none, rfl⟩
+  | some caps =>
+    obtain ⟨d, hd⟩ := matchToDict_false_ok caps []
+    simp only [hd]
+    exact ⟨_, rfl⟩
+
+theorem fieldsOf_ne_nil (t : Template) (s : Str) (h : phs t ≠ []) : fieldsOf t s ≠ [] := by
+  unfold fieldsOf
+  have := Str.splitOn_ne_nil '/' s
+  match hp : phs t, hs : Str.splitOn '/' s with
+  | [], _ => exact absurd hp h
+  | _ :: _, [] => exact absurd hs this
+  | _ :: _, _ :: _ => simp
+
+/-- an accepted string resolves to its segments -/
+theorem resolveTpl_of_accepts (e : Env) (t : Template) (hwf : sidTplOk e t = true) (s : Str)
+    (hacc : accepts e t s = true) :
+    Resolver.resolveTpl e false t s = .ok (some (fieldsOf t s)) := by
+  obtain ⟨hs, hnd, hne, hsf, hlast⟩ := tplOk_unpack e t hwf
+  unfold Resolver.resolveTpl
+  rw [compile_eq hs hnd, search_of_accepts e _ hne hsf hlast s hacc]
+  simp only
+  have : (phs t).map (fun p => nm p.1) = ((phs t).map (·.1)).map nm := by simp [List.map_map]
+  rw [this, matchToDict_zip _ hnd _ [] (by simp)]
+  have hf := fieldsOf_ne_nil t s hne
+  simp only [List.nil_append]
+  show Except.ok (if (fieldsOf t s).isEmpty then none else some (fieldsOf t s)) = _
+  simp [hf]
+
+/-- whatever resolves was accepted, up to the final newline that `$` tolerates -/
+theorem resolveTpl_some (e : Env) (t : Template) (hwf : sidTplOk e t = true) (s : Str) (d : Dict)
+    (h : Resolver.resolveTpl e false t s = .ok (some d)) :
+    ∃ m, (s = m ∨ s = m ++ ['\n']) ∧ accepts e t m = true ∧ d = fieldsOf t m := by
+  obtain ⟨hs, hnd, hne, hsf, hlast⟩ := tplOk_unpack e t hwf
+  unfold Resolver.resolveTpl at h
+  rw [compile_eq hs hnd] at h
+  cases hsearch : (sidRe (phs t)).search e s with
+  | none => rw [hsearch] at h; simp at h
+  | some caps =>
+    rw [hsearch] at h
+    obtain ⟨m, hm, hacc, hcaps⟩ := search_some e _ hne hsf s caps hsearch
+    refine ⟨m, hm, hacc, ?_⟩
+    have : (phs t).map (fun p => nm p.1) = ((phs t).map (·.1)).map nm := by simp [List.map_map]
+    subst hcaps
+    simp only at h
+    rw [this, matchToDict_zip _ hnd _ [] (by simp)] at h
+    simp only [List.nil_append] at h
+    change Except.ok (if (fieldsOf t m).isEmpty then none else some (fieldsOf t m)) = _ at h
+    have hf := fieldsOf_ne_nil t m hne
+    simp [hf] at h
+    exact h.symm
+
+/-- rendering the fields of an accepted string gives the string back -/
+theorem formatOne_of_accepts (e : Env) (R : Resolver) (hcd : R.checkDup = false) (label : Str)
+    (t : Template) (hl : R.lookup label = some t) (hwf : sidTplOk e t = true) (m : Str)
+    (hacc : accepts e t m = true) :
+    Resolver.formatOne e R (fieldsOf t m) label = .ok (if m.isEmpty then none else some m) := by
+  obtain ⟨hs, hnd, hne, hsf, hlast⟩ := tplOk_unpack e t hwf
+  have hf := fieldsOf_ne_nil t m hne
+  have hlen := acceptsSegs_length e _ _ hacc
+  unfold Resolver.formatOne
+  have hemp : (fieldsOf t m).isEmpty = false := by simp [hf]
+  rw [hemp, hl]
+  simp only [Bool.false_eq_true, if_false]
+  unfold Resolver.formatTpl
+  have hkeys : Dict.keysEq (fieldsOf t m) t.keys = true := by
+    rw [keys_sid hs hnd]; exact keysEq_zip _ _ (by simpa using hlen)
+  have hfmt : Template.format t (fieldsOf t m) = some m := by
+    have := format_sid hs (fieldsOf t m) (Str.splitOn '/' m) hlen (lookup_zip _ hnd _)
+    rw [this, Str.join_split]
+  rw [hkeys, hfmt]
+  simp only [Bool.not_true, Bool.false_eq_true, if_false]
+  unfold Resolver.resolveOne
+  by_cases hm : m = []
+  · subst hm; simp
+  · have hm' : m.isEmpty = false := by simp [hm]
+    simp only [hm', hl, hcd, Bool.false_eq_true, if_false, resolveTpl_of_accepts e t hwf m hacc]
+
+/-- a template that accepts `s` resolves it and passes the render-back guard -/
+theorem tpl_accepts (e : Env) (R : Resolver) (hcd : R.checkDup = false) (label : Str)
+    (t : Template) (hl : R.lookup label = some t) (hwf : sidTplOk e t = true) (s : Str)
+    (hne : s ≠ []) (hacc : accepts e t s = true) :
+    Resolver.resolveTpl e false t s = .ok (some (fieldsOf t s)) ∧
+    Resolver.formatOne e R (fieldsOf t s) label = .ok (some s) := by
+  refine ⟨resolveTpl_of_accepts e t hwf s hacc, ?_⟩
+  rw [formatOne_of_accepts e R hcd label t hl hwf s hacc]
+  simp [hne]
+
+/-- a template that does not accept `s` does not resolve it or fails the render-back guard -/
+theorem tpl_rejects (e : Env) (R : Resolver) (hcd : R.checkDup = false) (label : Str)
+    (t : Template) (hl : R.lookup label = some t) (hwf : sidTplOk e t = true) (s : Str)
+    (hne : s ≠ []) (hrej : accepts e t s = false) :
+    Resolver.resolveTpl e false t s = .ok none ∨
+    ∃ d f, Resolver.resolveTpl e false t s = .ok (some d) ∧
+      Resolver.formatOne e R d label = .ok f ∧ (f == some s) = false := by
+  obtain ⟨od, hod⟩ := resolveTpl_total e t s
+  cases od with
+  | none => exact Or.inl hod
+  | some d =>
+    right
+    obtain ⟨m, hm, hacc, rfl⟩ := resolveTpl_some e t hwf s d hod
+    refine ⟨_, _, hod, formatOne_of_accepts e R hcd label t hl hwf m hacc, ?_⟩
+    rcases hm with rfl | rfl
+    · rw [hacc] at hrej; exact absurd hrej (by simp)
+    · by_cases hm : m = []
+      · simp [hm]
+      · simp [hm]
+
+/-! ### the template table -/
+
+theorem lookup_of_mem (ts : List (Str × Template)) (hnd : (ts.map (·.1)).Nodup) (l : Str)
+    (t : Template) (h : (l, t) ∈ ts) : ts.lookup l = some t := by
+  induction ts with
+  | nil => simp at h
+  | cons p ts ih =>
+    obtain ⟨l', t'⟩ := p
+    simp only [List.map_cons, List.nodup_cons] at hnd
+    simp only [List.mem_cons, Prod.mk.injEq] at h
+    rcases h with ⟨rfl, rfl⟩ | h
+    · simp
+    · have hne : (l == l') = false := by
+        have : l ≠ l' := by
+          intro heq; subst heq
+          exact hnd.1 (List.mem_map.mpr ⟨(l, t), h, rfl⟩)
+        simpa using this
+      rw [List.lookup_cons, hne]
+      exact ih hnd.2 h
+
+theorem mem_of_lookup (ts : List (Str × Template)) (l : Str) (t : Template)
+    (h : ts.lookup l = some t) : (l, t) ∈ ts := by
+  induction ts with
+  | nil => simp at h
+  | cons p ts ih =>
+    obtain ⟨l', t'⟩ := p
+    rw [List.lookup_cons] at h
+    cases hb : l == l' with
+    | true =>
+      rw [hb] at h
+      simp at h hb
+      simp [h, hb]
+    | false =>
+      rw [hb] at h
+      simp [ih h]
+
+/-- what `sidTableOk` gives -/
+theorem tableOk_unpack (e : Env) (ts : List (Str × Template)) (h : sidTableOk e ts = true) :
+    ∀ p ∈ ts, sidTplOk e p.2 = true ∧ ts.lookup p.1 = some p.2 := by
+  simp only [sidTableOk, Bool.and_eq_true, List.all_eq_true] at h
+  obtain ⟨hall, hd⟩ := h
+  intro p hp
+  exact ⟨(hall p hp).2, lookup_of_mem ts ((distinct_iff_nodup _).mp hd) p.1 p.2 hp⟩
+
+theorem firstAccepting_some (e : Env) (ts : List (Str × Template)) (s : Str) (l : Str) (t : Template)
+    (h : firstAccepting e ts s = some (l, t)) : (l, t) ∈ ts ∧ accepts e t s = true := by
+  induction ts with
+  | nil => simp [firstAccepting] at h
+  | cons p ts ih =>
+    obtain ⟨l', t'⟩ := p
+    simp only [firstAccepting] at h
+    split at h
+    · next hacc =>
+      simp only [Option.some.injEq, Prod.mk.injEq] at h
+      obtain ⟨rfl, rfl⟩ := h
+      exact ⟨by simp, hacc⟩
+    · have := ih h
+      exact ⟨by simp [this.1], this.2⟩
+
+/-- the typing of `s` that the statement prescribes, as the value `sid_to_dict` returns -/
+def specDict (e : Env) (ts : List (Str × Template)) (s : Str) : Option (Str × Dict) :=
+  (firstAccepting e ts s).map (fun p => (p.1, fieldsOf p.2 s))
+
+theorem resolveFirstGo_spec (e : Env) (R : Resolver) (hcd : R.checkDup = false) (s : Str)
+    (hne : s ≠ []) (ts : List (Str × Template))
+    (H : ∀ p ∈ ts, sidTplOk e p.2 = true ∧ R.lookup p.1 = some p.2) :
+    (Resolver.resolveFirstGo e false s ts = .ok none ∧ firstAccepting e ts s = none) ∨
+    (∃ l d f, Resolver.resolveFirstGo e false s ts = .ok (some (l, d)) ∧
+      Resolver.formatOne e R d l = .ok f ∧
+      ((f == some s) = true → specDict e ts s = some (l, d))) := by
+  induction ts with
+  | nil => left; simp [Resolver.resolveFirstGo, firstAccepting]
+  | cons p ts ih =>
+    obtain ⟨l, t⟩ := p
+    obtain ⟨hwf, hl⟩ := H (l, t) (by simp)
+    simp only at hwf hl
+    cases hacc : accepts e t s with
+    | true =>
+      obtain ⟨h1, h2⟩ := tpl_accepts e R hcd l t hl hwf s hne hacc
+      right
+      refine ⟨l, fieldsOf t s, some s, ?_, h2, ?_⟩
+      · simp [Resolver.resolveFirstGo, h1]
+      · intro _; simp [specDict, firstAccepting, hacc]
+    | false =>
+      rcases tpl_rejects e R hcd l t hl hwf s hne hacc with h1 | ⟨d, f, h1, h2, h3⟩
+      · rcases ih (fun p hp => H p (by simp [hp])) with ⟨h4, h5⟩ | ⟨l', d', f', h4, h5, h6⟩
+        · left; simp [Resolver.resolveFirstGo, h1, h4, firstAccepting, hacc, h5]
+        · right
+          refine ⟨l', d', f', ?_, h5, ?_⟩
+          · simp [Resolver.resolveFirstGo, h1, h4]
+          · intro hf; simpa [specDict, firstAccepting, hacc] using h6 hf
+      · right
+        refine ⟨l, d, f, ?_, h2, ?_⟩
+        · simp [Resolver.resolveFirstGo, h1]
+        · intro hf; rw [h3] at hf; exact absurd hf (by simp)
+
+theorem resolveAllGo_firstExact (c : Ctx) (s : Str) (hne : s ≠ []) (ts : List (Str × Template))
+    (H : ∀ p ∈ ts, sidTplOk c.env p.2 = true ∧ c.sidR.lookup p.1 = some p.2) :
+    ∃ all, Resolver.resolveAllGo c.env false s ts = .ok all ∧
+      c.firstExact s all = .ok (specDict c.env ts s) := by
+  induction ts with
+  | nil => exact ⟨[], by simp [Resolver.resolveAllGo], by simp [Ctx.firstExact, specDict, firstAccepting]⟩
+  | cons p ts ih =>
+    obtain ⟨l, t⟩ := p
+    obtain ⟨hwf, hl⟩ := H (l, t) (by simp)
+    simp only at hwf hl
+    obtain ⟨all, ha1, ha2⟩ := ih (fun p hp => H p (by simp [hp]))
+    cases hacc : accepts c.env t s with
+    | true =>
+      obtain ⟨h1, h2⟩ := tpl_accepts c.env c.sidR rfl l t hl hwf s hne hacc
+      refine ⟨(l, fieldsOf t s) :: all, ?_, ?_⟩
+      · simp [Resolver.resolveAllGo, h1, ha1]
+      · simp [Ctx.firstExact, h2, specDict, firstAccepting, hacc]
+    | false =>
+      rcases tpl_rejects c.env c.sidR rfl l t hl hwf s hne hacc with h1 | ⟨d, f, h1, h2, h3⟩
+      · refine ⟨all, ?_, ?_⟩
+        · simp [Resolver.resolveAllGo, h1, ha1]
+        · simpa [specDict, firstAccepting, hacc] using ha2
+      · refine ⟨(l, d) :: all, ?_, ?_⟩
+        · simp [Resolver.resolveAllGo, h1, ha1]
+        · simp only [Ctx.firstExact, h2, h3]
+          simpa [specDict, firstAccepting, hacc] using ha2
+
+end SidL
+
+namespace SidL
+
+open Spec
+
+/-! ### `sid_to_dict` -/
+
+theorem sidToDict_unforced_aux (c : Ctx) (hwf : sidTableOk c.env c.cfg.sid.templates = true)
+    (s : Str) (hne : s ≠ []) :
+    (match Resolver.resolveFirst c.env c.sidR s with
+      | .error x => .error x
+      | .ok none => .ok none
+      | .ok (some (label, data)) =>
+        match Resolver.formatOne c.env c.sidR data label with
+        | .error x => .error x
+        | .ok f =>
+          if f == some s then .ok (some (label, data))
+          else
+            match Resolver.resolveAll c.env c.sidR s with
+            | .error x => .error x
+            | .ok all => c.firstExact s all : Except Err (Option (Str × Dict))) =
+      .ok (specDict c.env c.cfg.sid.templates s) := by
+  have H := tableOk_unpack c.env _ hwf
+  have hs : s.isEmpty = false := by simp [hne]
+  unfold Resolver.resolveFirst Resolver.resolveAll
+  simp only [hs, Bool.false_eq_true, if_false]
+  obtain ⟨all, ha1, ha2⟩ := resolveAllGo_firstExact c s hne c.cfg.sid.templates H
+  rcases resolveFirstGo_spec c.env c.sidR rfl s hne c.cfg.sid.templates H with
+    ⟨h1, h2⟩ | ⟨l, d, f, h1, h2, h3⟩
+  · have h1' : Resolver.resolveFirstGo c.env c.sidR.checkDup s c.sidR.templates = .ok none := h1
+    simp [h1', specDict, h2]
+  · have h1' : Resolver.resolveFirstGo c.env c.sidR.checkDup s c.sidR.templates = .ok (some (l, d)) := h1
+    have ha1' : Resolver.resolveAllGo c.env c.sidR.checkDup s c.sidR.templates = .ok all := ha1
+    simp only [h1', h2, ha1']
+    cases hf : f == some s with
+    | true => simp [h3 hf]
+    | false => simpa using ha2
+
+theorem sidToDict_none (c : Ctx) (hwf : sidTableOk c.env c.cfg.sid.templates = true)
+    (s : Str) (hne : s ≠ []) :
+    c.sidToDict s none = .ok (specDict c.env c.cfg.sid.templates s) := by
+  rw [← sidToDict_unforced_aux c hwf s hne]
+  simp only [Ctx.sidToDict, Bool.false_eq_true, if_false]
+  rfl
+
+theorem sidToDict_some_nil (c : Ctx) (hwf : sidTableOk c.env c.cfg.sid.templates = true)
+    (s : Str) (hne : s ≠ []) :
+    c.sidToDict s (some []) = .ok (specDict c.env c.cfg.sid.templates s) := by
+  rw [← sidToDict_unforced_aux c hwf s hne]
+  simp only [Ctx.sidToDict, List.isEmpty_nil, Bool.not_true, Bool.false_eq_true, if_false]
+  rfl
+
+/-- the forced typing of `rest` by the template named `ty`, as the value `sid_to_dict` returns -/
+def forcedDict (e : Env) (ts : List (Str × Template)) (ty rest : Str) : Option (Str × Dict) :=
+  match ts.lookup ty with
+  | some t => if !rest.isEmpty && accepts e t rest then some (ty, fieldsOf t rest) else none
+  | none => none
+
+theorem sidToDict_forced (c : Ctx) (hwf : sidTableOk c.env c.cfg.sid.templates = true)
+    (ty rest : Str) (hty : ty ≠ []) :
+    c.sidToDict rest (some ty) = .ok (forcedDict c.env c.cfg.sid.templates ty rest) := by
+  have H := tableOk_unpack c.env _ hwf
+  have hf : (!ty.isEmpty) = true := by simp [hty]
+  unfold Ctx.sidToDict
+  simp only [hf, if_true, Option.getD_some]
+  unfold Resolver.resolveOne forcedDict
+  by_cases hr : rest = []
+  · subst hr
+    cases c.cfg.sid.templates.lookup ty <;> simp
+  · have hr' : rest.isEmpty = false := by simp [hr]
+    simp only [hr', Bool.false_eq_true, if_false, Bool.not_false, Bool.true_and]
+    cases hl : c.cfg.sid.templates.lookup ty with
+    | none =>
+      have hl' : c.sidR.lookup ty = none := hl
+      simp [hl']
+    | some t =>
+      have hl' : c.sidR.lookup ty = some t := hl
+      obtain ⟨hwt, _⟩ := H (ty, t) (mem_of_lookup _ _ _ hl)
+      simp only at hwt
+      have hcd : c.sidR.checkDup = false := rfl
+      simp only [hl', hcd]
+      cases hacc : accepts c.env t rest with
+      | true =>
+        obtain ⟨h1, h2⟩ := tpl_accepts c.env c.sidR rfl ty t hl' hwt rest hr hacc
+        simp [h1, h2]
+      | false =>
+        rcases tpl_rejects c.env c.sidR rfl ty t hl' hwt rest hr hacc with h1 | ⟨d, f, h1, h2, h3⟩
+        · simp [h1]
+        · simp only [h1, h2, h3]
+          simp
+
+theorem sidToDict_nil (c : Ctx) (ty : Option Str) : c.sidToDict [] ty = .ok none := by
+  unfold Ctx.sidToDict Resolver.resolveOne Resolver.resolveFirst
+  simp only [List.isEmpty_nil, if_true, ite_self]
+
+end SidL
